@@ -408,6 +408,39 @@ def section_history(docs, results):
                                 "problem": first_diff(got, ref)})
             if len(bad) > 3:
                 break
+    # one Compiler object used for several documents (each parsed with its own id generator, so ids repeat between
+    # documents) must give what a new Compiler gives; and compiling must not depend on what was compiled before
+    from gherkin.pickles.compiler import Compiler
+    from gherkin.stream.id_generator import IdGenerator
+    asts = []
+    for t in texts:
+        st, a = fresh_parse(t)
+        if st == "ok":
+            a = copy.deepcopy(a)
+            a["uri"] = "u"
+            asts.append(a)
+
+    def compile_fresh(a):
+        g = IdGenerator()
+        g._id_counter = 1000
+        return Compiler(g).compile(copy.deepcopy(a))
+    for i in range(len(asts)):
+        for j in range(len(asts)):
+            if i == j:
+                continue
+            n += 1
+            g = IdGenerator()
+            g._id_counter = 1000
+            c = Compiler(g)
+            c.compile(copy.deepcopy(asts[i]))
+            g._id_counter = 1000
+            got = c.compile(copy.deepcopy(asts[j]))
+            if got != compile_fresh(asts[j]):
+                bad.append({"history": "Compiler reused after another document", "text": texts[j][:300],
+                            "problem": "pickles differ from those of a new Compiler with an equal generator"})
+                break
+        if len(bad) > 3:
+            break
     # interleaving: two parsers advanced alternately line by line (scanner-gated) give their solo results
     import threading
     for a, b in zip(texts[:6], texts[6:12]):
